@@ -25,6 +25,7 @@ EXPLANATION = (
     "of the label's box (polynomial identities against the box of C08).  C07.BOXSIZE / THICK / TEXT / TICKTEXT: "
     "drawn size = item size plus one padding pair each, item height is a single constant when a width is supplied, "
     "texts verbatim, each tick carries format(t) at scale(t).  Text rendering semantics are not decided."
+    "  Also part of this check: an explicit domain is used as given (not niced); C08.GEOMETRY (the link ends on the box only if the box is where the layer geometry puts it); the caller's options reach the drawing (GEN.OPTS-MERGE: for every option the caller's value wins); 'compute first' is decided on the value-numbered export (every add_* sees the nodes/renderer of this export's own compute())."
 )
 ASSUMPTIONS = ["the scale object is affine (C12/C15)", "stubs of a label in layer k occupy layers 0..k-1 (C04.STUBCHAIN)"]
 
